@@ -864,3 +864,59 @@ func (u *Unit) arrTake(es string) string {
 	}
 	return name
 }
+
+// preRegisterGhosts declares the ret()/first() ghosts of every pattern mentioned in the contract, with the result
+// sorts of the matching call sites, so that clauses may mention them at points where the call has not happened yet.
+func (fr *Frame) preRegisterGhosts() {
+	u := fr.u
+	pats := fr.ghostPatterns()
+	if len(pats) == 0 {
+		return
+	}
+	var visit func(f *ssa.Function, depth int)
+	seen := map[*ssa.Function]bool{}
+	visit = func(f *ssa.Function, depth int) {
+		if f == nil || seen[f] || depth > 3 {
+			return
+		}
+		seen[f] = true
+		for _, b := range f.Blocks {
+			for _, in := range b.Instrs {
+				ci, ok := in.(ssa.CallInstruction)
+				if !ok {
+					continue
+				}
+				c := ci.Common()
+				var name string
+				if c.IsInvoke() {
+					name = ifaceMethodName(c.Value.Type(), c.Method.Name())
+				} else if sc := c.StaticCallee(); sc != nil {
+					name = sc.String()
+					if inRepo(sc) {
+						visit(sc, depth+1)
+					}
+				} else {
+					name = "dynamic:" + valueDesc(c.Value)
+				}
+				for _, pat := range pats {
+					if !matchCallee(pat, name) {
+						continue
+					}
+					res := c.Signature().Results()
+					for k := 0; k < res.Len(); k++ {
+						srt := u.enc.sortOf(res.At(k).Type())
+						for _, g := range []string{fmt.Sprintf("$ret:%s:%d", pat, k), fmt.Sprintf("$first:%s:%d", pat, k)} {
+							if _, ok := u.heapSort[g]; !ok {
+								u.regHeap(g, srt)
+							}
+						}
+					}
+				}
+			}
+		}
+		for _, an := range f.AnonFuncs {
+			visit(an, depth+1)
+		}
+	}
+	visit(fr.fn, 0)
+}
